@@ -215,6 +215,11 @@ def default_factory_nodes(chk: Check) -> List[Tuple[str, str, Any, int]]:
                             v = kw.value
                             if isinstance(v, ast.Lambda) and isinstance(v.body, ast.Call):
                                 out.append((cls, n, F.resolve_expr(ci.module, v.body.func), d.lineno, v.body))
+                            elif isinstance(v, ast.Call) and F.resolve_expr(ci.module, v.func) == ('ext', 'functools.partial') and v.args:
+                                # default_factory=partial(Cls, a, k=b) builds Cls(a, k=b)
+                                built = ast.copy_location(ast.Call(func=v.args[0], args=list(v.args[1:]), keywords=list(v.keywords)), v)
+                                ast.fix_missing_locations(built)
+                                out.append((cls, n, F.resolve_expr(ci.module, v.args[0]), d.lineno, built))
                             else:
                                 out.append((cls, n, F.resolve_expr(ci.module, v), d.lineno, v))
     return out
@@ -227,7 +232,7 @@ def every_node_is_an_op(chk: Check, R: str) -> None:
     classes = set(om.op_classes(F))
     # 1. classes with an eval method in the node module
     for q, ci in sorted(F.classes.items()):
-        if ci.module.name != om.AST_OPS:
+        if ci.module.name != om.AST_OPS and ci.module.name not in {F.cls(c_).module.name for c_ in classes}:
             continue
         has_eval = F.find_method(q, om.EVAL) is not None
         where = '%s:%d' % (ci.module.rel, ci.node.lineno)
